@@ -15,7 +15,10 @@ VARIABLES ctx, req          \* req: subset of names as a sequence, or <<"?">> wh
 vars == <<ctx, req>>
 
 Names == <<"a", "b", "c", "n", "zz">>
-Contexts == {"root", "prop", "item", "def", "defitem", "allOfReqOnly", "allOfSplit", "allOfRef", "anyOf"}
+Contexts == {"root", "prop", "item", "def", "defitem", "allOfReqOnly", "allOfSplit", "allOfRef", "anyOf",
+             "mapprop", "mappropitem", "allOfNested"}
+\* the contexts with their own property set: `required` ranges over the subsets of three names there
+SmallCtx == {"mapprop", "mappropitem", "allOfNested"}
 
 Int_ == [type |-> <<"integer">>]
 PropsO == << [k |-> "a", s |-> Int_],
@@ -40,6 +43,26 @@ InnerDoc(ch) ==
 InnerDocs == SetToSeq({InnerDoc(ch) : ch \in Choice})
 
 Sub(r, names) == SelectSeq(r, LAMBDA k : k \in names)
+In(r, k) == \E i \in DOMAIN r : r[i] = k
+
+\* mapprop: required properties whose type is a typed map (no default): a (integer), m (map of strings), ma (map of
+\* arrays of strings); required = the subset of {a, m, ma} chosen by the names a, b, c of req
+Str_ == [type |-> <<"string">>]
+MapOf(v) == [type |-> <<"object">>, additionalProperties |-> [k |-> "s", s |-> v]]
+OM(r) == Obj(<<[k |-> "a", s |-> Int_], [k |-> "m", s |-> MapOf(Str_)], [k |-> "ma", s |-> MapOf([type |-> <<"array">>, items |-> Str_])]>>,
+             (IF In(r, "a") THEN <<"a">> ELSE <<>>) \o (IF In(r, "b") THEN <<"m">> ELSE <<>>) \o (IF In(r, "c") THEN <<"ma">> ELSE <<>>))
+MapDocs == SetToSeq({JObj( (IF a THEN <<KV("a", JNum(4))>> ELSE <<>>)
+                           \o (IF m = "abs" THEN <<>> ELSE <<KV("m", IF m = "empty" THEN JObj(<<>>) ELSE JObj(<<KV("k", JStr(<<"a">>))>>))>>)
+                           \o (IF ma = "abs" THEN <<>> ELSE <<KV("ma", IF ma = "empty" THEN JObj(<<>>) ELSE JObj(<<KV("k", JArr(<<JStr(<<"a">>)>>))>>))>>) )
+                     : a \in BOOLEAN, m \in {"abs", "empty", "full"}, ma \in {"abs", "empty", "full"}})
+\* allOfNested: two inline branches that both declare the nested object n, each with keys and `required` of its own
+\* (k by the first, j by the second); n itself required by the second branch
+NestedAllOf(r) ==
+  [allOf |-> <<Obj(<<[k |-> "n", s |-> Obj(<<[k |-> "k", s |-> Int_]>>, IF In(r, "a") THEN <<"k">> ELSE <<>>)]>>, <<>>),
+               Obj(<<[k |-> "n", s |-> Obj(<<[k |-> "j", s |-> Str_]>>, IF In(r, "b") THEN <<"j">> ELSE <<>>)]>>,
+                   IF In(r, "n") THEN <<"n">> ELSE <<>>)>>]
+NestedDocs == << JObj(<<>>), JObj(<<KV("n", JObj(<<>>))>>), JObj(<<KV("n", JObj(<<KV("k", JNum(4))>>))>>),
+                 JObj(<<KV("n", JObj(<<KV("j", JStr(<<"a">>))>>))>>), JObj(<<KV("n", JObj(<<KV("j", JStr(<<"a">>)), KV("k", JNum(4))>>))>>) >>
 Z == ("type" :> <<"object">>) @@ ("properties" :> <<[k |-> "q", s |-> [type |-> <<"boolean">>]]>>) @@ ("required" :> <<"q">>)
 
 Wrap(x) == JObj(<<KV("x", x)>>)
@@ -70,6 +93,11 @@ Unit(c, r) ==
                       schema |-> xprop([allOf |-> <<RefN, Obj(SubSeq(PropsO, 3, 4), Sub(r, {"c", "n", "zz"}))>>]),
                       defs |-> <<[k |-> "N", s |-> Obj(SubSeq(PropsO, 1, 2), Sub(r, {"a", "b"}))]>>,
                       docs |-> docsX(Wrap)]
+    [] c = "mapprop" -> [prop |-> "C04", ctx |-> c, schema |-> OM(r), defs |-> <<>>, docs |-> MapDocs]
+    [] c = "mappropitem" -> [prop |-> "C04", ctx |-> c, schema |-> xprop(("type" :> <<"array">>) @@ ("items" :> OM(r))), defs |-> <<>>,
+                      docs |-> [i \in DOMAIN MapDocs |-> Wrap(JArr(<<MapDocs[i]>>))]]
+    [] c = "allOfNested" -> [prop |-> "C04", ctx |-> c, schema |-> xprop(NestedAllOf(r)), defs |-> <<>>,
+                      docs |-> [i \in DOMAIN NestedDocs |-> Wrap(NestedDocs[i])]]
     [] c = "anyOf" -> [prop |-> "C04", ctx |-> c,
                       schema |-> xprop([anyOf |-> <<O(r), Z>>]), defs |-> <<>>,
                       \* with the other branch satisfied (q present); documents whose nested n is invalid are left
@@ -88,7 +116,7 @@ SubLists(s) == IF s = <<>> THEN {<<>>}
 \* the generated code, per context
 ImplAccepts(unit, d, D) ==
   LET env == unit.defs
-      x == IF unit.ctx = "root" THEN d ELSE ObjVal(d, "x")
+      x == IF unit.ctx \in {"root", "mapprop"} THEN d ELSE ObjVal(d, "x")
       r == req
   IN
   CASE unit.ctx \in {"root", "prop", "def"} -> ImplStruct(env, O(r), x, D)
@@ -100,6 +128,9 @@ ImplAccepts(unit, d, D) ==
     [] unit.ctx \in {"allOfReqOnly", "allOfSplit", "allOfRef"} ->
          ImplAllOf(env, unit.schema.properties[1].s.allOf, x, D)
     [] unit.ctx = "anyOf" -> ImplAnyOf(env, unit.schema.properties[1].s.anyOf, x, D)
+    [] unit.ctx = "mapprop" -> ImplStruct(env, OM(r), x, D)
+    [] unit.ctx = "mappropitem" -> \A i \in DOMAIN x.a : ImplStruct(env, OM(r), x.a[i], D)
+    [] unit.ctx = "allOfNested" -> ImplAllOf(env, unit.schema.properties[1].s.allOf, x, D)
 
 RefVerdict(unit, d)    == Valid(unit.defs, unit.schema, d, {}, "decl", NoLim)
 DevVerdict(unit, d, D) == Valid(unit.defs, unit.schema, d, D, "decl", NoLim)
@@ -113,7 +144,8 @@ DesignOK == Set => LET unit == u IN Agree(unit, {})
 AsIsOK   == Set => LET unit == u IN Agree(unit, Devs)
 
 Init == ctx \in Contexts /\ req = <<"?">>
-Pick == req = <<"?">> /\ req' \in SubLists(Names) /\ UNCHANGED ctx
+Pick == req = <<"?">> /\ req' \in (IF ctx = "allOfNested" THEN SubLists(<<"a", "b", "n">>)
+                               ELSE IF ctx \in SmallCtx THEN SubLists(<<"a", "b", "c">>) ELSE SubLists(Names)) /\ UNCHANGED ctx
 Next == Pick
 Spec == Init /\ [][Next]_vars
 
